@@ -131,6 +131,8 @@ def run(ctx):
             f = self_field(node["recv"])
             if f and f.endswith("map"):
                 ins_fields.setdefault(f, []).append((node, list(guards)))
+        if k == "assign" and strip(node["left"]).get("k") == "path" and len(strip(node["left"])["path"]) == 1 and unparse(strip(node["right"])) in ("true", "false"):
+            switches.append((strip(node["left"])["path"][0], list(guards), node))
         visit_children(node, guards)
 
     def visit_children(node, guards):
@@ -142,7 +144,24 @@ def run(ctx):
                     if isinstance(e, dict):
                         visit(e, guards)
 
+    switches = []
     visit(ins.body, [])
+    # a local switch that routes the annotation to a later block which fills several indices must not hang on one index's flag
+    for name, guards, node in switches:
+        gated = [x for x in walk(ins.body) if x.get("k") == "if" and unparse(strip(x["cond"])) == name]
+        fields_behind = set()
+        for gnode in gated:
+            for x in walk(gnode["then"]):
+                if x.get("k") == "mcall" and x["method"] in ("insert", "extend", "push"):
+                    f_ = self_field(x["recv"])
+                    if f_ and f_.endswith("map"):
+                        fields_behind.add(f_)
+        if not fields_behind:
+            continue
+        r_cfg.hit("switch:%s" % name)
+        foreign = [g for g in guards if g in cfg_fields and (fields_behind - {g})]
+        if foreign:
+            ctx.report(r_cfg, "switch:%s<-%s" % (name, foreign[0]), "inserted() sets the switch `%s` (which leads to the block that fills %s) only under self.config.%s: with that one index switched off the annotation is left out of the *other* indices as well (e.g. an annotation on part of another annotation's text is not found through its text)" % (name, sorted(fields_behind), foreign[0]), ins.file, node.get("l"))
     for f, sites in sorted(ins_fields.items()):
         for node, guards in sites:
             r_cfg.hit("%s@%s" % (f, node["method"]))
